@@ -1192,7 +1192,7 @@ def parser_fuzz(rep: C.Report, rng: random.Random, n: int) -> dict:
             if len(s) > 400:
                 continue
             cases.append((rng.choice([0, 1, 2]), s))
-        tys = [s for _, s in cases if len(s) < 120][: max(20, per // 3)]
+        tys = [s for _, s in cases if len(s) < 200]
         groups.append((gl, cases, tys))
     res = model_eval(f"{rep.pid}_fuzz_{rep.tier}", groups)
     counts = {"cases": 0, "type_cases": 0, "outcomes": {}, "undeclared": {}, "disagreements": 0,
@@ -1354,8 +1354,14 @@ def main(tier: str, seed: int, replay: str | None = None) -> int:
         fails = oracle_case(d)
         for i, f in enumerate(fails):
             rep.violation(f"replayed_{i}", dict(d, **f, kind="oracle"), has_input=True, signature=d.get("signature"))
-        rep.coverage.update({"replayed": replay, "failures": len(fails)})
-        return rep.finish(C.TRUSTED)
+        # one stored case: verdict only, the evidence file of the last full run stays
+        for msg in rep.known_hits:
+            print(f"KNOWN-FINDING: property=C13 {msg}")
+        if rep.violations:
+            print(f"VIOLATION property=C13 replay={rep.violations[0][0]}")
+            return 1
+        print(f"OK property=C13 replayed={replay} strings={len(d.get('strings') or [d.get('string')])}")
+        return 0
     rep.proof_stage()
     rng = random.Random(seed)
     # ---- corpus: witnesses of past failures, always run first
@@ -1371,7 +1377,7 @@ def main(tier: str, seed: int, replay: str | None = None) -> int:
     if tier == "quick":
         nlang, ntree, nrend, nmal = 8, 7, 8, 40
     else:
-        nlang, ntree, nrend, nmal = 50, 22, 10, 150
+        nlang, ntree, nrend, nmal = 80, 22, 10, 150
     t_gen = time.time()
 
     # ---- generate
